@@ -26,13 +26,37 @@ PALETTE = "plain"          # "collide": abstract 0 / 1 become -1 / -2, whose has
 
 
 def conc(x, kind):
+    """palettes: plain (ints, promoted to float by 5.5); collide (-1 / -2); complex (ints, promoted to COMPLEX: the spec's
+    "float" kind stands for complex); temporal (dates, promoted to DATETIME: "int" stands for date, "float" for datetime)"""
     if x == NONE_V:
         return None
+    if PALETTE == "temporal":
+        import datetime as _dt
+        if x == FLOAT_V:
+            return _dt.datetime(2021, 6, 7, 8, 9)
+        d = _dt.date(2020, 1, 1) + _dt.timedelta(days=x)
+        return _dt.datetime(d.year, d.month, d.day) if kind == "float" else d
+    if PALETTE == "complex":
+        if x == FLOAT_V:
+            return 5.5 + 1j
+        return complex(x) if kind == "float" else x
     if x == FLOAT_V:
         return 5.5
     if PALETTE == "collide":
         x = {0: -1, 1: -2}.get(x, x)
     return float(x) if kind == "float" else x
+
+
+def kind_of(sch):
+    """the spec's kind word for a dtype under the current palette"""
+    if sch is None:
+        return None
+    nm = sch.kind.__name__
+    if PALETTE == "complex":
+        return {"complex": "float"}.get(nm, nm)
+    if PALETTE == "temporal":
+        return {"date": "int", "datetime": "float"}.get(nm, nm)
+    return nm
 
 
 def conc_vals(vals):
@@ -262,8 +286,10 @@ class World:
         if act == "RawCopy":
             import copy as _copy
             src = self.obj(a["x"])
-            self.vec[new[0]] = _copy.copy(src) if self.pick(2) == 0 else _copy.deepcopy(src)
-            self.forms.append(["copy.copy(v)", "copy.deepcopy(v)"][self.pick(2)])
+            # (deepcopy rebuilds date / datetime cells, hence the tuple: only the shallow copy shares storage there)
+            k = 0 if PALETTE == "temporal" else self.pick(2)
+            self.vec[new[0]] = _copy.copy(src) if k == 0 else _copy.deepcopy(src)
+            self.forms.append(["copy.copy(v)", "copy.deepcopy(v)"][k])
             return "Ok"
         if act == "ConcatEmpty":
             src = self.obj(a["x"])
@@ -282,7 +308,7 @@ class World:
             vals = []
             for o, x in zip(self.cols[t], a["vs"]):
                 col = self.obj(o)
-                kind = "float" if (col.schema() is not None and col.schema().kind is float) else "int"
+                kind = "float" if kind_of(col.schema()) == "float" else "int"
                 vals.append(conc(x, kind))
             before = [list(c) for c in tab.cols()]
             k = self.pick(3)
@@ -349,7 +375,17 @@ class World:
                 raise Mismatch("fp_value", f"fingerprint() of table {a['x']} differs from a rebuilt table's", None)
             return "Ok"
         if act == "Rename":
-            self.obj(a["x"]).name = None if a["nm"] == "-" else a["nm"]
+            v, nm = self.obj(a["x"]), (None if a["nm"] == "-" else a["nm"])
+            k = self.pick(3)
+            if k == 2 and v.name is not None:
+                k = 0                       # alias() is for unnamed vectors only
+            self.forms.append(["v.name = x", "v.rename(x)", "v.alias(x)"][k])
+            if k == 0:
+                v.name = nm
+            elif k == 1:
+                v.rename(nm)
+            else:
+                v.alias(nm)
             return "Ok"
         if act == "RenameColumn":
             t, i = a["x"], a["y"] - 1
@@ -412,7 +448,7 @@ class World:
     def write(self, a):
         o, i, x = a["x"], a["z"] - 1, a["w"]
         v = self.obj(o)
-        kind = "float" if (v.schema() is not None and v.schema().kind is float) else "int"
+        kind = "float" if kind_of(v.schema()) == "float" else "int"
         val = conc(x, kind)
         pos = self.column_pos(o)
         forms = ["v[i] = x", "v[i:i+1] = [x]", "v[mask] = x", "v[[i]] = x", "v[i-n] = x", "v[Vector([i])] = [x]"]
@@ -600,7 +636,7 @@ def compare(w, post, last_act=None, strict_registry=True):
         if len(got) != len(exp) or not all(_same(a, b) for a, b in zip(got, exp)):
             yield ("contents" + where, {"object": o, "values": got}, exp)
         sch = v.schema()
-        gk = None if sch is None else (sch.kind.__name__, bool(sch.nullable))
+        gk = None if sch is None else (kind_of(sch), bool(sch.nullable))
         if sch is None and not exp:
             pass        # an empty vector that was never typed has no dtype to compare
         elif gk != (kind, post["nullable"][o - 1]):
